@@ -68,7 +68,7 @@ theorem coverRec_below (target : Nat) (κ : Nat → Nat → Nat → Option Verdi
         intro c hc; simp at hc; subst hc
         exact ⟨Nat.le_refl _, Nat.le_refl _, Nat.le_refl _, hdt⟩
       | skip => cases h; exact ⟨trivial, by simp⟩
-      | descend =>
+      | descend fl =>
         by_cases heq : depth = target
         · simp only [heq, beq_self_eq_true, if_true] at h
           cases h
@@ -163,7 +163,7 @@ open Hpx.Bmoc
     in the root cell lies in a cell of the output. -/
 theorem coverRec_no_miss {P : Type} (inCell : Nat → Nat → P → Prop) (R : P → Prop)
     (target : Nat) (κ : Nat → Nat → Nat → Option Verdict)
-    (hcover : ∀ d h q, inCell d h q → inCell (d + 1) (h <<< 2) q ∨ inCell (d + 1) (h <<< 2 ||| 1) q ∨
+    (hcover : ∀ d h q, d ≠ target → inCell d h q → inCell (d + 1) (h <<< 2) q ∨ inCell (d + 1) (h <<< 2 ||| 1) q ∨
       inCell (d + 1) (h <<< 2 ||| 2) q ∨ inCell (d + 1) (h <<< 2 ||| 3) q)
     (hskip : ∀ d h l, κ d h l = some .skip → ∀ q, inCell d h q → ¬ R q) :
     ∀ (fuel depth hash level : Nat) (out : List Cell),
@@ -182,9 +182,9 @@ theorem coverRec_no_miss {P : Type} (inCell : Nat → Nat → P → Prop) (R : P
       cases v with
       | full => cases h; exact ⟨⟨depth, hash, true⟩, by simp, hq⟩
       | skip => exact absurd hR (hskip _ _ _ hk q hq)
-      | descend =>
+      | descend fl =>
         by_cases heq : (depth == target) = true
-        · simp only [heq, if_true] at h; cases h; exact ⟨⟨depth, hash, false⟩, by simp, hq⟩
+        · simp only [heq, if_true] at h; cases h; exact ⟨⟨depth, hash, fl⟩, by simp, hq⟩
         · simp only [heq, Bool.false_eq_true, if_false] at h
           cases h0 : coverRec target κ fuel (depth + 1) (hash <<< 2) (level + 1) with
           | none => simp [h0] at h
@@ -200,7 +200,7 @@ theorem coverRec_no_miss {P : Type} (inCell : Nat → Nat → P → Prop) (R : P
           | some d =>
           simp only [h0, h1, h2, h3] at h
           cases h
-          rcases hcover depth hash q hq with hc | hc | hc | hc
+          rcases hcover depth hash q (by simpa using heq) hq with hc | hc | hc | hc
           · obtain ⟨x, hx, hin⟩ := ih _ _ _ _ h0 q hc hR; exact ⟨x, by simp [hx], hin⟩
           · obtain ⟨x, hx, hin⟩ := ih _ _ _ _ h1 q hc hR; exact ⟨x, by simp [hx], hin⟩
           · obtain ⟨x, hx, hin⟩ := ih _ _ _ _ h2 q hc hR; exact ⟨x, by simp [hx], hin⟩
@@ -210,7 +210,8 @@ theorem coverRec_no_miss {P : Type} (inCell : Nat → Nat → P → Prop) (R : P
 theorem coverRec_full_rule (target : Nat) (κ : Nat → Nat → Nat → Option Verdict) :
     ∀ (fuel depth hash level : Nat) (out : List Cell),
       coverRec target κ fuel depth hash level = some out →
-      ∀ c ∈ out, c.full = true → ∃ l, κ c.depth c.hash l = some .full := by
+      ∀ c ∈ out, c.full = true → ∃ l, κ c.depth c.hash l = some .full ∨
+        (c.depth = target ∧ κ c.depth c.hash l = some (.descend true)) := by
   intro fuel
   induction fuel with
   | zero => intro depth hash level out h; simp [coverRec] at h
@@ -222,11 +223,13 @@ theorem coverRec_full_rule (target : Nat) (κ : Nat → Nat → Nat → Option V
     | some v =>
       simp only [hk] at h
       cases v with
-      | full => cases h; simp at hc; subst hc; exact ⟨level, hk⟩
+      | full => cases h; simp at hc; subst hc; exact ⟨level, Or.inl hk⟩
       | skip => cases h; simp at hc
-      | descend =>
+      | descend fl =>
         by_cases heq : (depth == target) = true
-        · simp only [heq, if_true] at h; cases h; simp at hc; subst hc; simp at hf
+        · simp only [heq, if_true] at h; cases h; simp at hc; subst hc
+          simp only [] at hf; subst hf
+          exact ⟨level, Or.inr ⟨by simpa using heq, hk⟩⟩
         · simp only [heq, Bool.false_eq_true, if_false] at h
           cases h0 : coverRec target κ fuel (depth + 1) (hash <<< 2) (level + 1) with
           | none => simp [h0] at h
@@ -248,5 +251,66 @@ theorem coverRec_full_rule (target : Nat) (κ : Nat → Nat → Nat → Option V
           · exact ih _ _ _ _ h1 c hc hf
           · exact ih _ _ _ _ h2 c hc hf
           · exact ih _ _ _ _ h3 c hc hf
+
+end Hpx.Cover
+
+namespace Hpx.Cover
+open Hpx.Bmoc
+
+/-- **the loop over the root cells, for every classifier**: with strictly increasing roots of depth `ds`, the
+    concatenation of the per-root outputs is well formed, consists exactly of the per-root outputs, and every root's
+    descent succeeded. -/
+theorem rootsFold (target : Nat) (κ : Nat → Nat → Nat → Option Verdict) (D : Nat) (hD : target ≤ D)
+    (fuel ds : Nat) (hds : ds ≤ target) :
+    ∀ (roots : List Nat) (init out : List Cell),
+      roots.Pairwise (· < ·) → WF D init → (∀ c ∈ init, ∀ h ∈ roots, hi D c ≤ lo D ⟨ds, h, true⟩) →
+      roots.foldlM (fun acc h => (coverRec target κ fuel ds h 0).map (acc ++ ·)) init = some out →
+      WF D out ∧
+      (∀ c ∈ out, c ∈ init ∨ ∃ h ∈ roots, ∃ o, coverRec target κ fuel ds h 0 = some o ∧ c ∈ o) ∧
+      (∀ h ∈ roots, ∃ o, coverRec target κ fuel ds h 0 = some o ∧ ∀ c ∈ o, c ∈ out) ∧
+      (∀ c ∈ init, c ∈ out) := by
+  intro roots
+  induction roots with
+  | nil =>
+    intro init out _ hw _ h
+    simp only [List.foldlM_nil] at h
+    cases h
+    exact ⟨hw, fun c hc => Or.inl hc, fun h hh => by simp at hh, fun c hc => hc⟩
+  | cons r rs ih =>
+    intro init out hp hw hsep h
+    simp only [List.foldlM_cons] at h
+    cases ho : coverRec target κ fuel ds r 0 with
+    | none => simp [ho] at h
+    | some o =>
+      simp only [ho, Option.map_some, Option.bind_eq_bind, Option.bind_some] at h
+      have hb := coverRec_below target κ D hD fuel ds r 0 o hds ho
+      have hp' := List.pairwise_cons.mp hp
+      have hw' : WF D (init ++ o) := by
+        refine WF_append hw hb.1 ?_
+        intro x hx y hy
+        exact Nat.le_trans (hsep x hx r (by simp)) (hb.2 y hy).1
+      have hsep' : ∀ c ∈ init ++ o, ∀ h' ∈ rs, hi D c ≤ lo D ⟨ds, h', true⟩ := by
+        intro c hc h' hh'
+        rcases List.mem_append.mp hc with hc | hc
+        · exact hsep c hc h' (by simp [hh'])
+        · have h1 := (hb.2 c hc).2.1
+          have h2 : r < h' := hp'.1 h' hh'
+          have : hi D ⟨ds, r, true⟩ ≤ lo D ⟨ds, h', true⟩ := by
+            unfold hi lo
+            exact Nat.mul_le_mul_right _ h2
+          exact Nat.le_trans h1 this
+      obtain ⟨g1, g2, g3, g4⟩ := ih (init ++ o) out hp'.2 hw' hsep' h
+      refine ⟨g1, ?_, ?_, ?_⟩
+      · intro c hc
+        rcases g2 c hc with hc' | ⟨h', hh', o', ho', hco'⟩
+        · rcases List.mem_append.mp hc' with hc' | hc'
+          · exact Or.inl hc'
+          · exact Or.inr ⟨r, by simp, o, ho, hc'⟩
+        · exact Or.inr ⟨h', by simp [hh'], o', ho', hco'⟩
+      · intro h' hh'
+        rcases List.mem_cons.mp hh' with rfl | hh'
+        · exact ⟨o, ho, fun c hc => g4 c (by simp [hc])⟩
+        · exact g3 h' hh'
+      · intro c hc; exact g4 c (by simp [hc])
 
 end Hpx.Cover
